@@ -3,6 +3,12 @@ import CTV.Model.ChainCheck
 Helper definitions and lemmas for the C02 theorems: the declarative notions (`Link`, `Linked`,
 `Good`) and the search invariant of `buildChains`.
 -/
+instance {ε α} [DecidableEq ε] [DecidableEq α] : DecidableEq (Except ε α)
+  | .ok a, .ok b => if h : a = b then isTrue (by rw [h]) else isFalse (by intro e; cases e; exact h rfl)
+  | .error a, .error b => if h : a = b then isTrue (by rw [h]) else isFalse (by intro e; cases e; exact h rfl)
+  | .ok _, .error _ => isFalse (by intro e; cases e)
+  | .error _, .ok _ => isFalse (by intro e; cases e)
+
 namespace C02
 open CTV.Model.ChainCheck
 
